@@ -304,6 +304,10 @@ def run_check(pid, tier, seed):
         for ci in range(n):
             g = G(seed * 1000003 + ci)
             ops = prop.case(g, tier, ci)
+            if getattr(prop, "HEAP_SUMMARY", False) and not any(o.get("op") == "heap.summary" for o in ops):
+                # reference-level observation at the end of the program: which user-held objects share cells
+                names = sorted({o[k] for o in ops for k in ("id", "to") if isinstance(o.get(k), str)})
+                ops = list(ops) + [{"op": "heap.summary", "vars": names}]
             handle(ops, f"gen seed={seed} case={ci}")
             if len(violations) >= 3:
                 break
